@@ -309,6 +309,18 @@ theorem checkHighQCPost_root_boundary (x view : Gen.Bft.View) (hh : x.Height = v
   unfold checkHighQCPost
   simp
 
+/-- every certificate is verified against the committee of its OWN root height — the justification `Qc`, the lock `HighQc`
+    attached to a leader message, and the lock reported in an ELECTION_VOTE: a signer bitmap only means something under the
+    validator list it was laid out for. The model's symbolic signatures (`World.sigValid`: the listed signers signed this
+    payload) and `good_leader_commits` (a lock formed before a root-height bump is re-proposed after it) rest on this. -/
+theorem certificates_checked_under_own_committee :
+    src_CheckProposerMessage_committees =
+      ["if x.Qc.Header.RootHeight != p.rootHeight { vals, err = b.LoadCommittee(b.LoadRootChainId(x.Qc.Header.Height), x.Qc.Header.RootHeight) }",
+       "if x.HighQc.Header.RootHeight != p.rootHeight { highQCVals, err = b.LoadCommittee(b.LoadRootChainId(x.HighQc.Header.Height), x.HighQc.Header.RootHeight) }"] ∧
+    src_handleHighQC_committee =
+      "vs, err := b.Controller.LoadCommittee(b.LoadRootChainId(vote.HighQc.Header.Height), vote.HighQc.Header.RootHeight)" := by
+  decide +kernel
+
 /-- in the per-replica model: the candidate named by an ELECTION_VOTE of its round, up to its PROPOSE phase, processes a
     real, full, current lock certificate that carries its proposal — it adopts or keeps, it never rejects the vote -/
 theorem exec_leader_hears_lock (w : World) (r : Nat) (s : Rep) (v : Bft.View) (hq : CertD)
